@@ -129,7 +129,8 @@ class LSFScriptAdapter(SchedulerScriptAdapter):
 
         # LSF requires an hour and minutes format. We need to attempt to split
         # and correct if we get something that's coming in as HH:MM:SS
-        walltime = step.run.get("walltime")
+        # The walltime may be an integer (minutes) or not be declared at all.
+        walltime = str(step.run.get("walltime") or "")
         wt_split = walltime.split(":")
         if len(wt_split) == 3:
             # If wall time is specified in three parts, we'll just calculate
@@ -141,7 +142,8 @@ class LSFScriptAdapter(SchedulerScriptAdapter):
             total_minutes %= 60
             walltime = "{:02d}:{:02d}".format(hours, int(total_minutes))
 
-        batch_header["walltime"] = walltime
+        if walltime:
+            batch_header["walltime"] = walltime
 
         modified_header = ["#!{}".format(self._exec)]
         for key, value in self._header.items():
